@@ -515,7 +515,17 @@ func (g *egen) expr(d int) string {
 	case c < 60:
 		op := g.r.Pick([]string{"==", "!=", "<", "<=", ">", ">="})
 		var l, r string
-		if g.r.Chance(2, 3) {
+		if g.r.Chance(1, 6) {
+			// arrays against arrays (element types nested in the array), objects against objects
+			if g.r.Chance(2, 3) {
+				l, r = g.arrArg(d-1), g.arrArg(d-1)
+			} else {
+				l, r = g.path(d-1, kObj), g.path(d-1, kObj)
+			}
+			if g.r.Chance(1, 2) {
+				op = g.r.Pick([]string{"==", "!="})
+			}
+		} else if g.r.Chance(2, 3) {
 			k := []int{kStr, kNum, kStr, kBool}[g.r.Intn(4)]
 			l, r = g.path(d-1, k), g.path(d-1, k)
 			if g.r.Chance(1, 2) {
